@@ -491,6 +491,12 @@ HOSTILE_CSS = [b'@import url(http://[bad); a { background: url( }', b'\xff\xfe@\
                b'@charset "bogus"; @import "\\110000";', b'/*' * 5000]
 HOSTILE_JS = [b'var a = "http://[bad/"; var b = "//"; var c = "http://a.test:99999/x.html";', b'"' * 9999, b'"http://' + b'a' * 70000 + b'"',
               b'\xff\xfe"\x00h\x00', b'var x = "\\u{110000} \\xZZ http://a.test/\\";', b'{"url":"http:\\/\\/[bad\\/", "a":"\\ud800"}']
+# links in schemes that carry their own syntax (data: media types, scheme-only, odd ports) in positions every scraper reads
+_ODD_LINKS = [b'data:a/b/c,x/', b'data:,/', b'data:/,/', b'data:;base64,/', b'data:text/html;charset==,/', b'javascript:/', b'mailto:/x/', b'http:/', b'http:', b'://x/',
+              b'http://a.test:/x/', b'http://a.test:0x50/', b'//:80/', b'/\\a.test/', b'http://a.test/\\ud800/', b'ftp://a.test:99999/', b'http://%zz/', b'http://a..test./x/', b'file:///etc/', b'/%00/']
+HOSTILE_JS += [b'var links = [' + b', '.join(b'"' + l + b'"' for l in _ODD_LINKS) + b'];']
+HOSTILE_HTML += [b'<html>' + b''.join(b'<a href="' + l + b'">x</a><img src="' + l + b'" srcset="' + l + b' 2x"><div data-href="' + l + b'"></div>' for l in _ODD_LINKS) + b'</html>']
+HOSTILE_CSS += [b''.join(b'@import url("' + l + b'"); a { background: url(' + l + b') }\n' for l in _ODD_LINKS)]
 HOSTILE_SITEMAP = [b'<?xml version="1.0"?><urlset><url><loc>http://[bad</loc></url><url><loc>\x00</loc></url></urlset>',
                    b'<?xml version="1.0" encoding="bogus"?><urlset>', b'<urlset>' + b'<url><loc>' * 3000, b'\x1f\x8b\x08\x00garbage-not-gzip',
                    b'<?xml version="1.0"?><!DOCTYPE x [<!ENTITY a "&a;&a;">]><urlset><url><loc>&a;</loc></url></urlset>',
